@@ -1,3 +1,4 @@
+import Frp.Model.LockDisc
 /-
   C16 obligations 2 and 3b: small total models of the two places where a peer-chosen value or an
   arbitrary frame meets code that runs in a goroutine without recover.
@@ -6,9 +7,14 @@
   * `Dispatcher.readLoop` (pkg/msg/handler.go) + the first-message switch of `handleConnection`
     (server/service.go): what one frame does to a set of sessions.
   * `discoverConn` (pkg/nathole/discovery.go): reader goroutine vs. Close (client side).
+  * the readers behind the OTHER connection kinds (work connections, visitor connections): what frps
+    parses on them, which message fields it follows (server/proxy/udp.go workConnReaderFn,
+    pkg/proto/udp/udp.go ForwardUserConn / Forwarder).
+  * `Control.RegisterWorkConn` racing `Control.worker`'s teardown (server/control.go).
 -/
 namespace Frp
 namespace Crash
+open LockDisc
 
 /-! ## NewControl -/
 
@@ -95,6 +101,199 @@ def firstMsg : Frame → FirstOutcome
   | .known "NewWorkConn" => .workConn
   | .known "NewVisitorConn" => .visitorConn
   | _ => .closed
+
+/-! ## Connection kinds
+
+  server/service.go handleConnection reads ONE message of a fresh connection (`firstMsg`).  What frps
+  reads afterwards depends on what the connection became:
+
+  * `control`   — Dispatcher.readLoop (above);
+  * `pooled`    — a work connection sitting in `workConnCh`: nothing is read;
+  * `relay`     — a work connection joined with a user / visitor connection (tcp, stcp, xtcp-less
+                  classes; sudp on the server is a relay too), or a visitor connection: bytes are
+                  copied (possibly through the decrypt / decompress wrappers), never parsed as messages;
+  * `udpWork`   — the work connection of a udp proxy: server/proxy/udp.go `workConnReaderFn` parses
+                  frames, `ForwardUserConn` consumes the packets. -/
+
+inductive ConnKind | control | pooled | relay | udpWork
+  deriving DecidableEq, Repr
+
+/-- a `*net.UDPAddr` as decoded from the peer's JSON: `none` = field absent or `null` (nil pointer);
+    any other value (zero address, port out of range, garbage zone) is a non-nil pointer -/
+structure UAddr where
+  ipLen : Nat
+  port : Int
+  deriving DecidableEq, Repr
+
+/-- msg.UDPPacket as the reader sees it -/
+structure UdpPkt where
+  contentOk : Bool            -- `c` is valid base64
+  laddr : Option UAddr        -- `l`
+  raddr : Option UAddr        -- `r`
+  deriving DecidableEq, Repr
+
+/-- what ReadMsg makes of the next frame of a udp work connection -/
+inductive WFrame
+  | ping
+  | udp (p : UdpPkt)
+  | other (typeName : String)   -- any other registered type with a body that unmarshals
+  | bad                         -- unknown type byte, bad length, malformed JSON (also: a field of the wrong JSON type), EOF
+  deriving DecidableEq, Repr
+
+/-- is the pointer behind field `f` nil in packet `p`? -/
+def UdpPkt.isNil (p : UdpPkt) (field : String) : Bool :=
+  if field = "UDPPacket.RemoteAddr" then p.raddr.isNone
+  else if field = "UDPPacket.LocalAddr" then p.laddr.isNone
+  else false
+
+/-- one listed use of a pointer field, executed on packet `p`: a load through a nil pointer outside
+    any guard is a SIGSEGV panic — in these goroutines (no recover) the process dies -/
+def useOutcome (nilSafe : List (String × String)) (tolerant : List String) (u : PtrUse) (p : UdpPkt) : Outcome :=
+  if p.isNil u.field && !u.guarded && u.derefs nilSafe tolerant then .processDies else .alive
+
+/-- all uses a consumer goroutine makes of one packet (over-approximation: every listed use of the
+    function is taken as reached, in any order) -/
+def consume (nilSafe : List (String × String)) (tolerant : List String) (uses : List PtrUse) (p : UdpPkt) : Outcome :=
+  if uses.any (fun u => useOutcome nilSafe tolerant u p == .processDies) then .processDies else .alive
+
+/-- pkg/proto/udp/udp.go ForwardUserConn, the reader goroutine, as the code is:
+      for udpMsg := range readCh {
+        buf, err := GetContent(udpMsg); if err != nil { continue }
+        _, _ = udpConn.WriteToUDP(buf, udpMsg.RemoteAddr) }
+    `WriteToUDP` with a nil address returns errMissingAddress (ignored). -/
+inductive FwdResult | skipped | writeErr | written
+  deriving DecidableEq, Repr
+
+def forwardUserOne (p : UdpPkt) : FwdResult :=
+  if !p.contentOk then .skipped
+  else match p.raddr with
+    | none => .writeErr
+    | some a => if 0 < a.port ∧ a.port ≤ 65535 ∧ (a.ipLen = 4 ∨ a.ipLen = 16) then .written else .writeErr
+
+/-- the work connection of one udp proxy (server/proxy/udp.go) -/
+structure UdpWork where
+  open_ : Bool := true
+  queued : List UdpPkt := []      -- pushed into pxy.readCh, in order
+  renew : Nat := 0                -- notifications on checkCloseCh: the proxy asks for a new work connection
+  deriving DecidableEq, Repr
+
+/-- workConnReaderFn, one iteration:
+      if rawMsg, errRet = msg.ReadMsg(conn); errRet != nil { conn.Close(); checkCloseCh <- 1; return }
+      switch m := rawMsg.(type) { case *msg.Ping: continue
+                                  case *msg.UDPPacket: pxy.readCh <- m }      (no default case) -/
+def udpReaderStep (w : UdpWork) (f : WFrame) : UdpWork :=
+  if !w.open_ then w else
+  match f with
+  | .bad => { w with open_ := false, renew := w.renew + 1 }
+  | .ping => w
+  | .other _ => w
+  | .udp p => { w with queued := w.queued ++ [p] }
+
+/-- frps as far as frames can reach it: the process, the control sessions, the udp work connections -/
+structure Srv where
+  alive : Bool := true
+  ctls : List Sess := []
+  works : List UdpWork := []
+  deriving DecidableEq, Repr
+
+inductive Ev
+  | ctl (i : Nat) (f : Frame)       -- a frame on control connection i
+  | work (j : Nat) (f : WFrame)     -- a frame on udp work connection j
+  | bytes (kind : ConnKind)         -- bytes on a pooled / relayed connection: not parsed
+  deriving DecidableEq, Repr
+
+def deliverW : List UdpWork → Nat → WFrame → List UdpWork
+  | [], _, _ => []
+  | w :: rest, 0, f => udpReaderStep w f :: rest
+  | w :: rest, j + 1, f => w :: deliverW rest j f
+
+/-- `fwdUses` = the listed uses inside the consumer of readCh (ForwardUserConn's reader goroutine) -/
+def srvStep (handlers : List String) (nilSafe : List (String × String)) (tolerant : List String)
+    (fwdUses : List PtrUse) (s : Srv) (e : Ev) : Srv :=
+  if !s.alive then s else
+  match e with
+  | .ctl i f => { s with ctls := deliver handlers s.ctls i f }
+  | .bytes _ => s
+  | .work j f =>
+    let s' := { s with works := deliverW s.works j f }
+    match f with
+    | .udp p =>
+      -- the packet is consumed only if the connection was open (else it was never read)
+      if (s.works[j]?.map (·.open_)).getD false && consume nilSafe tolerant fwdUses p == .processDies
+      then { s' with alive := false } else s'
+    | _ => s'
+
+def srvRun (handlers : List String) (nilSafe : List (String × String)) (tolerant : List String)
+    (fwdUses : List PtrUse) (s : Srv) (evs : List Ev) : Srv :=
+  evs.foldl (srvStep handlers nilSafe tolerant fwdUses) s
+
+/-! ## RegisterWorkConn against the session's teardown (server/control.go)
+
+  `Control.worker`, after the dispatcher is done, under ctl.mu:
+      close(ctl.workConnCh); drain            (label closeCh)
+      for each proxy: Close, Del …            (label closeProxies)
+      close(ctl.doneCh)                       (label closeDone)
+  and the goroutine started by RegisterControl then removes the session from ControlManager (label del).
+  A NewWorkConn for the run id may be handled at ANY point in between (label offer): Service.RegisterWorkConn
+  finds the session as long as it is in the table and calls
+      func (ctl *Control) RegisterWorkConn(conn) (err error) {
+        defer func() { if r := recover(); r != nil { …; err = ErrCtlClosed } }()
+        select { case ctl.workConnCh <- conn: return nil; default: return "pool is full" } }
+  A send on a closed channel panics (the select picks it: a closed channel is always ready for a send
+  to panic on).  The caller is the connection's goroutine (HandleListener → handleConnection): no recover. -/
+
+structure Ctl where
+  chOpen : Bool := true
+  doneOpen : Bool := true
+  inTable : Bool := true
+  pooled : Nat := 0
+  cap : Nat := 10
+  deriving DecidableEq, Repr
+
+/-- how RegisterWorkConn is written: `recover_` = the deferred recover is there;
+    `doneCheck` = an up-front `select { case <-ctl.doneCh: return ErrCtlClosed; default: }` -/
+structure RegVariant where
+  recover_ : Bool
+  doneCheck : Bool
+  deriving DecidableEq, Repr
+
+inductive RegResult | pooled | full | errClosed | notFound | panics
+  deriving DecidableEq, Repr
+
+def registerWorkConn (v : RegVariant) (c : Ctl) : Ctl × RegResult :=
+  if !c.inTable then (c, .notFound)
+  else if v.doneCheck && !c.doneOpen then (c, .errClosed)
+  else if !c.chOpen then (c, if v.recover_ then .errClosed else .panics)
+  else if c.pooled < c.cap then ({ c with pooled := c.pooled + 1 }, .pooled)
+  else (c, .full)
+
+inductive TLabel | closeCh | closeProxies | closeDone | del | offer
+  deriving DecidableEq, Repr
+
+def tstep (v : RegVariant) (st : Ctl × Outcome) : TLabel → Ctl × Outcome
+  | .closeCh => ({ st.1 with chOpen := false, pooled := 0 }, st.2)
+  | .closeProxies => st
+  | .closeDone => ({ st.1 with doneOpen := false }, st.2)
+  | .del => ({ st.1 with inTable := false }, st.2)
+  | .offer =>
+    match st.2 with
+    | .processDies => st
+    | .alive =>
+      let r := registerWorkConn v st.1
+      (r.1, if r.2 = .panics then .processDies else .alive)
+
+def trun (v : RegVariant) (c : Ctl) (ls : List TLabel) : Ctl × Outcome :=
+  ls.foldl (tstep v) (c, .alive)
+
+/-- the schedule the engine's `tear` op forces with the gate it parks the worker at:
+    n offers at the gate, the rest of the teardown, one late offer -/
+def tearSchedule (gate : String) (n : Nat) : List TLabel :=
+  let offers := List.replicate n TLabel.offer
+  if gate = "dispDone" then offers ++ [.closeCh, .closeProxies, .closeDone, .del, .offer]
+  else if gate = "drained" then [.closeCh] ++ offers ++ [.closeProxies, .closeDone, .del, .offer]
+  else if gate = "beforeDone" then [.closeCh, .closeProxies] ++ offers ++ [.closeDone, .del, .offer]
+  else if gate = "beforeDel" then [.closeCh, .closeProxies, .closeDone] ++ offers ++ [.del, .offer]
+  else [.closeCh, .closeProxies, .closeDone, .del] ++ offers
 
 /-! ## discoverConn (client side, pkg/nathole/discovery.go)
 
